@@ -3,3 +3,328 @@ From Coq Require Import List Arith ZArith NArith Lia Bool.
 From BPT Require Import Common.Base Common.AMap Rust.Tree Rust.Readers Rust.InvDefs Rust.Lib
   Rust.TreeFactsR Rust.RemoveLocal Py.Tree Py.Inv Py.Facts Py.DeleteLocal.
 Import ListNotations.
+
+Lemma Forall_remove_at : forall (A : Type) (P : A -> Prop) i l, Forall P l -> Forall P (remove_at i l).
+Proof.
+  intros A P i l H. revert i. induction H; intros i; destruct i; simpl; auto.
+Qed.
+
+Lemma firstn_len_app : forall (A : Type) (l1 l2 : list A), firstn (length l1) (l1 ++ l2) = l1.
+Proof. intros. rewrite firstn_app, Nat.sub_diag, firstn_all. simpl. apply app_nil_r. Qed.
+
+Lemma skipn_len_app : forall (A : Type) (l1 l2 : list A), skipn (length l1) (l1 ++ l2) = l2.
+Proof. intros. rewrite skipn_app, Nat.sub_diag, skipn_all. reflexivity. Qed.
+
+Lemma skipn_S_len_app : forall (A : Type) (l1 : list A) x l2, skipn (S (length l1)) (l1 ++ x :: l2) = l2.
+Proof.
+  intros. replace (l1 ++ x :: l2) with ((l1 ++ [x]) ++ l2) by (rewrite <- app_assoc; reflexivity).
+  replace (S (length l1)) with (length (l1 ++ [x])) by (rewrite app_length; cbn [length]; lia).
+  apply skipn_len_app.
+Qed.
+
+(* result of the recursion at the root: well-shaped, or a key-less branch over one
+   well-shaped child (which __delitem__ then installs as the root) *)
+Definition pshape_r (c h : nat) (t : ptree) : Prop :=
+  pshape c true h t \/
+  exists id ch h', h = S h' /\ t = PBranch id c [] [ch] /\ pshape c false h' ch.
+
+Definition del_ok (c : nat) (z : Z) (r : bool) (lo hi : option Z) (h : nat) (t t' : ptree)
+    (deleted : bool) : Prop :=
+  ord lo hi t' /\
+  (r = false -> pshape c false h t' \/ pshape_u c h t') /\
+  (r = true -> pshape_r c h t') /\
+  contents t' = m_remove (contents t) z /\
+  deleted = is_some (m_get (contents t) z) /\
+  (deleted = false -> t' = t) /\
+  links_del (leaf_links t) (leaf_links t').
+
+Lemma del_leaf_spec : forall c z f r lo hi h id c' ks (vs : list pyval) nx,
+  4 <= c -> ord lo hi (PLeaf id c' ks vs nx) -> pshape c r h (PLeaf id c' ks vs nx) ->
+  exists t' deleted,
+    py_del false (S f) c (PLeaf id c' ks vs nx) z = Ok (t', deleted) /\
+    del_ok c z r lo hi h (PLeaf id c' ks vs nx) t' deleted.
+Proof.
+  intros * C O S.
+  apply pshape_leaf_inv in S. destruct S as (-> & -> & Lv & L2 & L1).
+  apply ord_leaf_inv in O. destruct O as [Sk F].
+  cbn [py_del]. destruct (bfound ks z) eqn:B.
+  - destruct (bfound_true ks z B) as (k & Ek & Kz).
+    assert (Hi : lb ks z < length ks) by (apply nth_error_Some; congruence).
+    destruct (nth_error vs (lb ks z)) as [v|] eqn:Ev;
+      [|apply nth_error_None in Ev; lia].
+    rewrite (vec_remove_ok _ _ _ Ev). cbn [bind fst snd].
+    eexists. eexists. split; [reflexivity|].
+    assert (Lk' : length (remove_at (lb ks z) ks) = pred (length ks)) by (apply length_remove_at; auto).
+    assert (Lv' : length (remove_at (lb ks z) vs) = pred (length vs)) by (apply length_remove_at; lia).
+    split; [|split; [|split; [|split; [|split; [|split]]]]].
+    + constructor. apply sorted_keys_remove_at; auto. apply Forall_remove_at; auto.
+    + intros ->. specialize (L1 eq_refl).
+      destruct (Nat.le_gt_cases ((c - 1) / 2) (length (remove_at (lb ks z) ks))).
+      * left. constructor; try lia; auto.
+      * right. constructor; lia.
+    + intros ->. left. constructor; try lia; discriminate.
+    + cbn [contents]. apply leaf_remove; auto.
+    + cbn [contents]. rewrite leaf_get; auto. rewrite B, Ev. reflexivity.
+    + discriminate.
+    + apply ld_refl.
+  - eexists. eexists. split; [reflexivity|].
+    assert (N : forall e : key * pyval, In e (combine ks vs) -> kz (fst e) <> z).
+    { intros [k v] I. apply in_combine_l in I. simpl. eapply bfound_false; eauto. }
+    split; [|split; [|split; [|split; [|split; [|split]]]]].
+    + constructor; auto.
+    + intros ->. left. constructor; auto.
+    + intros ->. left. constructor; auto.
+    + cbn [contents]. rewrite m_remove_notin; auto.
+    + cbn [contents]. rewrite m_get_none_notin; auto.
+    + auto.
+    + apply ld_refl.
+Qed.
+
+Definition del_IH (c : nat) (z : Z) (f : nat) : Prop :=
+  forall (t : ptree) lo hi h, ord lo hi t -> pshape c false h t -> h < f ->
+  exists t' deleted,
+    py_del false f c t z = Ok (t', deleted) /\ del_ok c z false lo hi h t t' deleted.
+
+Lemma prb_post_refl : forall c lo hi h ks (cs : list ptree),
+  pbody c lo hi h ks cs -> prb_post c lo hi h ks cs ks cs.
+Proof. intros. split; [auto|split; [left; auto|split; [auto|apply ld_refl]]]. Qed.
+
+Lemma del_branch_spec : forall c z f r lo hi h id c' ks (cs : list ptree),
+  4 <= c -> del_IH c z f ->
+  ord lo hi (PBranch id c' ks cs) -> pshape c r h (PBranch id c' ks cs) -> h < S f ->
+  exists t' deleted,
+    py_del false (S f) c (PBranch id c' ks cs) z = Ok (t', deleted) /\
+    del_ok c z r lo hi h (PBranch id c' ks cs) t' deleted.
+Proof.
+  intros * C IH O S Hf.
+  pose proof (pmin_facts C) as PM.
+  pose proof (p_branch_contents_split z O S) as [B1 B2].
+  apply pshape_branch_invF in S. destruct S as (h' & -> & -> & L & L2 & L1 & Lr & Fs).
+  apply ord_branch_inv in O; auto. destruct O as (Sk & F & O).
+  pose proof (child_index_le_length ks z) as Hci.
+  destruct (nth_error cs (child_index ks z)) as [ch|] eqn:Hn;
+    [|apply nth_error_None in Hn; lia].
+  cbn [py_del]. rewrite (find_child_index_ok _ _ z L). cbn [bind].
+  rewrite (vec_get_ok _ _ _ Hn). cbn [bind].
+  destruct (nth_error_zip_inv _ _ Hn) as (cs1 & cs2 & -> & Lc1).
+  destruct (split_at ks Hci) as (ks1 & ks2 & -> & Lk1).
+  assert (Lc : length cs1 = length ks1) by lia.
+  rewrite <- Lc1 in B1, B2. rewrite firstn_len_app in B1. rewrite skipn_S_len_app in B2.
+  pose proof O as O'. apply ords_app in O'; auto. destruct O' as [O1 O2].
+  pose proof (ords_cons_inv _ _ _ _ _ O2) as Och.
+  apply Forall_app in Fs. destruct Fs as [F1 Fs]. inversion Fs as [|? ? Sch F2]; subst.
+  destruct (IH ch _ _ h' Och Sch ltac:(lia)) as (ch' & deleted & E1 & R1).
+  destruct R1 as (Och' & Sf & _ & Ct & Rm & Nn & Lk).
+  specialize (Sf eq_refl).
+  assert (CtR : m_remove (CT (cs1 ++ ch :: cs2)) z = CT cs1 ++ m_remove (contents ch) z ++ CT cs2).
+  { rewrite flat_map_zip1. rewrite m_remove_app_r by auto. rewrite m_remove_app_l by auto. reflexivity. }
+  assert (CtG : m_get (CT (cs1 ++ ch :: cs2)) z = m_get (contents ch) z).
+  { rewrite flat_map_zip1. rewrite m_get_app_r by auto. rewrite m_get_app_l by auto. reflexivity. }
+  rewrite E1. cbn [bind].
+  rewrite <- Lc1. rewrite set_nth_zip0.
+  assert (KL : 1 <= length (ks1 ++ ks2)).
+  { destruct r; [auto|]. specialize (L1 eq_refl). lia. }
+  destruct deleted.
+  - cbn [negb].
+    assert (RB : exists ks' cs',
+      (if orb (Nat.eqb (length (pkeys ch')) 0) (py_is_underfull ch')
+       then handle_underflow c (ks1 ++ ks2) (cs1 ++ ch' :: cs2) (length cs1)
+       else Ok (ks1 ++ ks2, cs1 ++ ch' :: cs2)) = Ok (ks', cs') /\
+      prb_post c lo hi h' (ks1 ++ ks2) (cs1 ++ ch' :: cs2) ks' cs').
+    { assert (O3 : ords lo hi (ks1 ++ ks2) (cs1 ++ ch' :: cs2)).
+      { apply ords_app; auto. split; auto. eapply ords_cons_change; eauto. }
+      destruct Sf as [Sf|Sf].
+      - rewrite (pshape_no_trigger _ _ _ C Sf).
+        exists (ks1 ++ ks2), (cs1 ++ ch' :: cs2). split; [reflexivity|].
+        apply prb_post_refl. split; [auto|split; [auto|split; [auto|]]].
+        apply Forall_app. split; auto.
+      - rewrite (pshape_u_trigger _ _ _ Sf). apply handle_underflow_spec; auto. }
+    destruct RB as (ks' & cs' & E2 & (Bd & Ln & Ct2 & Lk2)).
+    rewrite E2. cbn [bind fst snd].
+    eexists. eexists. split; [reflexivity|].
+    destruct Bd as (Sk' & F' & O4 & Fs').
+    pose proof (ords_length _ _ _ _ O4) as L'.
+    assert (L2' : length ks' <= c) by lia.
+    split; [|split; [|split; [|split; [|split; [|split]]]]].
+    + apply ord_branch_intro; auto.
+    + intros ->. specialize (L1 eq_refl).
+      destruct (Nat.le_gt_cases ((c - 1) / 2) (length ks')).
+      * left. apply pshape_branch_intro; auto. discriminate.
+      * right. constructor; auto. lia.
+    + intros ->. specialize (Lr eq_refl). destruct ks' as [|k0 ks'].
+      * right. destruct cs' as [|c0 [|c1 cs']]; try discriminate.
+        inversion Fs'; subst. exists id, c0, h'. auto.
+      * left. apply pshape_branch_intro; auto; try discriminate. cbn [length]. lia.
+    + cbn [contents]. rewrite Ct2. rewrite flat_map_zip1. rewrite Ct. symmetry. exact CtR.
+    + cbn [contents]. rewrite CtG. exact Rm.
+    + discriminate.
+    + cbn [leaf_links]. eapply links_del_trans; [|exact Lk2].
+      rewrite !flat_map_zip1. apply links_del_frame. exact Lk.
+  - cbn [negb]. rewrite (Nn eq_refl) in *.
+    eexists. eexists. split; [reflexivity|].
+    assert (St : forall r', (r' = r) -> pshape c r' (S h') (PBranch id c (ks1 ++ ks2) (cs1 ++ ch :: cs2))).
+    { intros r' ->. apply pshape_branch_intro; auto. apply Forall_app; split; auto. }
+    split; [|split; [|split; [|split; [|split; [|split]]]]].
+    + apply ord_branch_intro; auto.
+    + intros ->. left. apply St; auto.
+    + intros ->. left. apply St; auto.
+    + cbn [contents]. rewrite CtR. rewrite <- Ct. rewrite flat_map_zip1. reflexivity.
+    + cbn [contents]. rewrite CtG. exact Rm.
+    + auto.
+    + apply ld_refl.
+Qed.
+
+Lemma del_spec : forall c z f (t : ptree) r lo hi h,
+  4 <= c -> ord lo hi t -> pshape c r h t -> h < f ->
+  exists t' deleted,
+    py_del false f c t z = Ok (t', deleted) /\ del_ok c z r lo hi h t t' deleted.
+Proof.
+  intros c z f. induction f; intros * C O S Hf; [lia|].
+  destruct t as [id c' ks vs nx|id c' ks cs].
+  - apply del_leaf_spec; auto.
+  - apply del_branch_spec; auto.
+    intros t0 lo0 hi0 h0 O0 S0 H0. apply IHf; auto.
+Qed.
+
+(* ---------------- root collapse ---------------- *)
+Definition collapse (t : ptree) : ptree :=
+  match t with
+  | PBranch _ _ _ [only] => only
+  | _ => t
+  end.
+
+Lemma collapse_spec : forall c h (t : ptree), 4 <= c -> pshape_r c h t ->
+  exists h', pshape c true h' (collapse t) /\ h' <= h /\
+    (ord None None t -> ord None None (collapse t)) /\
+    contents (collapse t) = contents t /\ leaf_links (collapse t) = leaf_links t.
+Proof.
+  intros * C [S|(id & ch & h' & -> & -> & S)].
+  - exists h. assert (E : collapse t = t).
+    { inversion S; subst; [reflexivity|].
+      specialize (H2 eq_refl). destruct ks as [|k0 ks]; [cbn [length] in H2; lia|].
+      destruct cs as [|c0 [|c1 cs]]; try discriminate. reflexivity. }
+    rewrite E. auto.
+  - exists h'. cbn [collapse]. split; [|split; [|split; [|split]]].
+    + apply pshape_root_relax; auto.
+    + lia.
+    + intro O. apply ord_branch_inv in O; auto. destruct O as (_ & _ & O). simpl in O. tauto.
+    + simpl. rewrite app_nil_r. reflexivity.
+    + simpl. rewrite app_nil_r. reflexivity.
+Qed.
+
+(* ---------------- main theorem ---------------- *)
+Theorem py_delitem_spec : forall s z, PyInv s ->
+  exists s', py_delitem false s z = Ok (s', is_some (m_get (pcontents s) z)) /\ PyInv s' /\
+    pcontents s' = m_remove (pcontents s) z /\
+    tcap s' = tcap s /\ tleaves s' = tleaves s /\ tcache s' = tcache s /\ tnext s' = tnext s.
+Proof.
+  intros s z [Icap Iord [h Ish] Ich Ind Iids Inext Ihd Icache].
+  pose proof (pshape_height Ish) as Hh.
+  destruct (del_spec (tcap s) z (S (height (troot s))) (troot s) true None None h
+              Icap Iord Ish ltac:(lia)) as (t' & deleted & E & R).
+  destruct R as (Ot & _ & Sr & Ct & Rm & Nn & Lk). specialize (Sr eq_refl).
+  unfold py_delitem. rewrite E. cbn [bind]. unfold pcontents. rewrite <- Rm.
+  destruct deleted.
+  - destruct (collapse_spec (tcap s) h t' Icap Sr) as (h'' & S2 & _ & O2 & Ct2 & Ll2).
+    exists (mkP (tcap s) (collapse t') (tleaves s) (tcache s) (tnext s)).
+    split; [reflexivity|]. cbn [tcap troot tleaves tcache tnext].
+    split; [|split; [|auto]].
+    + constructor; cbn [tcap troot tleaves tcache tnext]; auto.
+      * eauto.
+      * unfold chain_ok in *. rewrite Ll2. eapply links_del_ok; eauto.
+      * unfold leaf_ids in *. rewrite Ll2. eapply links_del_nodup; eauto.
+      * unfold ids_below, leaf_ids in *. rewrite Ll2. intros id0 I0. apply Iids.
+        eapply links_del_in; eauto.
+      * unfold leaf_ids in *. rewrite Ll2. rewrite (links_del_hd _ _ Lk). exact Ihd.
+    + rewrite Ct2. exact Ct.
+  - rewrite (Nn eq_refl) in *.
+    exists (mkP (tcap s) (troot s) (tleaves s) (tcache s) (tnext s)).
+    split; [reflexivity|]. cbn [tcap troot tleaves tcache tnext].
+    split; [|split; [|auto]].
+    + constructor; cbn [tcap troot tleaves tcache tnext]; eauto.
+    + exact Ct.
+Qed.
+
+(* an absent key leaves the state literally unchanged (KeyError path) *)
+Lemma py_delitem_absent : forall s z, PyInv s -> m_get (pcontents s) z = None ->
+  py_delitem false s z = Ok (s, false).
+Proof.
+  intros s z [Icap Iord [h Ish] Ich Ind Iids Inext Ihd Icache] G.
+  pose proof (pshape_height Ish) as Hh.
+  destruct (del_spec (tcap s) z (S (height (troot s))) (troot s) true None None h
+              Icap Iord Ish ltac:(lia)) as (t' & deleted & E & R).
+  destruct R as (_ & _ & _ & _ & Rm & Nn & _).
+  unfold pcontents in G. rewrite G in Rm. cbn [is_some] in Rm. subst deleted.
+  rewrite (Nn eq_refl) in E. unfold py_delitem. rewrite E. cbn [bind].
+  destruct s; reflexivity.
+Qed.
+
+(* the height never grows *)
+Lemma py_delitem_height : forall s z s' b, PyInv s -> py_delitem false s z = Ok (s', b) ->
+  height (troot s') <= height (troot s).
+Proof.
+  intros s z s' b [Icap Iord [h Ish] Ich Ind Iids Inext Ihd Icache] E0.
+  pose proof (pshape_height Ish) as Hh.
+  destruct (del_spec (tcap s) z (S (height (troot s))) (troot s) true None None h
+              Icap Iord Ish ltac:(lia)) as (t' & deleted & E & R).
+  destruct R as (_ & _ & Sr & _ & _ & Nn & _). specialize (Sr eq_refl).
+  unfold py_delitem in E0. rewrite E in E0. cbn [bind] in E0.
+  destruct deleted.
+  - destruct (collapse_spec (tcap s) h t' Icap Sr) as (h'' & S2 & Hle & _).
+    injection E0 as <- <-. cbn [troot]. change (height (collapse t') <= height (troot s)).
+    rewrite (pshape_height S2). lia.
+  - rewrite (Nn eq_refl) in E0. injection E0 as <- <-. cbn [troot]. lia.
+Qed.
+
+(* ---------------- a concrete run (non-vacuity) ---------------- *)
+(* 20 keys inserted at capacity 4 give a tree of height 2; deleting them one by one
+   (one absent key among them) exercises borrows, leaf and branch merges and two root
+   collapses; the reported flags, the heights after each call and the final contents are
+   as the theorem says. *)
+Module DeleteExample.
+Open Scope Z_scope.
+
+Fixpoint build (s : pstate) (l : list Z) : res pstate :=
+  match l with
+  | [] => Ok s
+  | z :: l' => do s' <- py_setitem s (mkKey z (Z.to_N z)) (PVal (z * 10)); build s' l'
+  end.
+
+(* final state, reported flags, height after each call *)
+Fixpoint del_many (s : pstate) (l : list Z) : res (pstate * list bool * list nat) :=
+  match l with
+  | [] => Ok (s, [], [])
+  | z :: l' =>
+      do r <- py_delitem false s z;
+      do r' <- del_many (fst r) l';
+      Ok (fst (fst r'), snd r :: snd (fst r'), height (troot (fst r)) :: snd r')
+  end.
+
+Definition keys20 : list Z := [10; 3; 17; 1; 8; 15; 20; 5; 12; 7; 19; 2; 14; 9; 16; 4; 11; 18; 6; 13].
+Definition dels : list Z := [10; 1; 20; 7; 13; 99; 4; 16; 2; 18; 9; 5; 12; 3; 15; 8; 19; 6; 11; 14].
+
+Definition run : res (pstate * (pstate * list bool * list nat)) :=
+  do s <- py_new 4; do s0 <- build s keys20; do r <- del_many s0 dels; Ok (s0, r).
+
+Example delete_nonvacuous :
+  exists s0 s1,
+    run = Ok (s0, (s1,
+      [true; true; true; true; true; false; true; true; true; true;
+       true; true; true; true; true; true; true; true; true; true],
+      [2; 2; 2; 2; 2; 2; 2; 2; 2; 2; 2; 2; 2; 2; 2; 2; 2; 1; 1; 0]%nat)) /\
+    height (troot s0) = 2%nat /\ length (pcontents s0) = 20%nat /\
+    pcontents s1 = fold_left (@m_remove pyval) dels (pcontents s0) /\
+    pcontents s1 = [(mkKey 17 17, PVal 170)] /\
+    troot s1 = PLeaf 0 4 [mkKey 17 17] [PVal 170] NULL /\
+    tleaves s1 = tleaves s0 /\ tnext s1 = tnext s0.
+Proof.
+  pose (r := run).
+  assert (E : r = run) by reflexivity. vm_compute in E.
+  match type of E with _ = Ok (?a, (?b, _, _)) => exists a, b end.
+  vm_compute. repeat split; reflexivity.
+Qed.
+
+End DeleteExample.
+
+Print Assumptions py_delitem_spec.
+Print Assumptions merge_guard_never_refuses.
